@@ -77,6 +77,18 @@ func c13Run(c *Ctx, w *World, meIdx int, round string, doPoll bool, double bool)
 			if k > 0 {
 				after = writes[i][k-1]
 			}
+			if double {
+				// two kills: the history is identified by the crash point that falls between the two
+				// writes of the round and of the operation pool, if one of them does
+				k2 := (k + 1) % len(writes[i])
+				a2, b2 := "start of handling", writes[i][k2]
+				if k2 > 0 {
+					a2 = writes[i][k2-1]
+				}
+				if a2 == "Set fsm_state" && b2 == "Set operations" {
+					after, before = a2, b2
+				}
+			}
 			ev, pos, kk := h[i].In.Msg.Event, i, k
 			total++
 			cases = append(cases, HistCase{Kind: "crash/" + after + "/" + before, User: me, Items: items, Check: func(o RunObs) {
@@ -166,10 +178,27 @@ func c13Run(c *Ctx, w *World, meIdx int, round string, doPoll bool, double bool)
 				}()
 				pe.Poll()
 			}()
-			select {
-			case <-done: // crashed
-			case <-time.After(2500 * time.Millisecond):
+			// the crash run ends by itself; the uncrashed run is stopped once the message has been
+			// applied (or after a generous deadline: a slow machine must not look like a lost message)
+			deadline := time.After(25 * time.Second)
+			tick := time.NewTicker(200 * time.Millisecond)
+		wait:
+			for {
+				select {
+				case <-done: // crashed
+					break wait
+				case <-deadline:
+					break wait
+				case <-tick.C:
+					if armK < 0 {
+						if strings.Contains(e.Snapshot(), "state_sig_proposal_await_participants_confirmations") {
+							time.Sleep(300 * time.Millisecond) // let the loop save its offset
+							break wait
+						}
+					}
+				}
 			}
+			tick.Stop()
 			cancel()
 			<-done
 			e.Ctl.armed = false
